@@ -178,7 +178,9 @@ theorem exec_of_block (n : Nat) (hb : BlockFrame n) (hi : ItersSame n) : ExecFra
           simp only at h
           split at h
           · simp at h
-          · exact key _ _ h
+          · split at h
+            · exact key _ _ h
+            · simp at h
   | set target e =>
     simp only [exec, bind, Except.bind] at h
     split at h
